@@ -30,6 +30,18 @@ Fixpoint failing_from (i : nat) (mon : list (directive * list obs) -> list (Z * 
   end.
 Definition failing := failing_from 0.
 
+(* monitors that need the configuration the trace was produced with (the cron oracle) *)
+Fixpoint failing_cfg_from (i : nat) (mon : config -> list (directive * list obs) -> list (Z * nat))
+         (l : list (config * list (directive * list obs))) : list (nat * list (Z * nat)) :=
+  match l with
+  | [] => []
+  | (cfg, tr) :: l' => match mon cfg tr with
+                       | [] => failing_cfg_from (S i) mon l'
+                       | vs => (i, vs) :: failing_cfg_from (S i) mon l'
+                       end
+  end.
+Definition failing_cfg := failing_cfg_from 0.
+
 (* a trace is non-trivial when a conditional write lost (0 rows), a fault was injected, a crash happened,
    or a request was answered with a non-2xx status *)
 Definition lost_write (r : result) : bool :=
